@@ -25,7 +25,8 @@ REQUIRED_THEOREMS = ['CfVerif.C04.' + t for t in (
     'one_outstanding_fifo', 'reply_attribution_partial', 'reply_attribution_counterexample',
     'reply_attribution_duplicates_counterexample', 'open_lock_discipline', 'unmatched_reply_ignored',
     'stale_reply_ignored_when_idle', 'reply_for_other_request_ignored', 'update_callbacks_once_per_answer',
-    'stale_same_id_counterexample', 'gen_retry_guard', 'retransmit_only_outstanding')]
+    'stale_same_id_counterexample', 'gen_retry_guard', 'retransmit_only_outstanding', 'gen_handler_unregisters',
+    'handler_done_on_every_reply', 'answered_requests_have_no_handler', 'no_handler_no_delivery')]
 TRUSTED = ['harness/corr/c04.py extractor + correspondence + spec twin; harness/sim/crazyflie_device.py (session stepping, link) and harness/vsched',
            'environment model: the firmware parameter server of DESIGN Appendix D (Spec/C04 Dev = harness/sim CrazyflieDevice port 2, cross-checked on every transmitted request)',
            "CPython: struct pack/unpack as modelled in Base/Struct; int(str) on ASCII input; float(str) (passed to the model as an oracle, only reached for "
@@ -115,6 +116,45 @@ def _iter_is_snapshot(it, base, where):
     if s in ('list(%s)' % base, 'tuple(%s)' % base, '%s[:]' % base, '%s.copy()' % base):
         return True
     raise ExtractError('%s: iteration source %r is neither %s nor a recognised copy of it' % (where, s, base))
+
+
+def _unregister_paths(fn, h):
+    """lifecycle of a one-shot reply handler `h` (nested new_packet_cb of `fn`): inside the branch taken for a matching reply, is
+    `self.cf.remove_port_callback(CRTPPort.PARAM, new_packet_cb)` executed on the path that ends with the early `return` of the
+    ENOENT test, and on the path that runs to the end?  -> (enoent_path or None, end_path)"""
+    ifs = [n for n in h.body if isinstance(n, ast.If)]
+    X.expect(len(ifs) == 1 and not ifs[0].orelse and len(h.body) == 1, fn.name + ': handler is not a single `if <matching reply>:` block')
+
+    def is_remove(st):
+        return isinstance(st, ast.Expr) and isinstance(st.value, ast.Call) and ast.unparse(st.value.func) == 'self.cf.remove_port_callback' \
+            and [ast.unparse(a) for a in st.value.args] == ['CRTPPort.PARAM', h.name]
+    exits = {}
+
+    def walk(stmts, removed):
+        """-> removed-flag at fall-through, or None when every path returned"""
+        for st in stmts:
+            if is_remove(st):
+                removed = True
+            elif isinstance(st, ast.Return):
+                exits.setdefault('return', []).append(removed)
+                return None
+            elif isinstance(st, ast.If):
+                a = walk(st.body, removed)
+                if a is None and 'ENOENT' in ast.unparse(st.test):
+                    exits['enoent'] = exits['return'].pop()
+                b = walk(st.orelse, removed)
+                if a is None and b is None:
+                    return None
+                removed = (a if b is None else b if a is None else (a and b))
+            elif isinstance(st, (ast.For, ast.While, ast.Try, ast.With)):
+                raise ExtractError(fn.name + ': handler contains a statement whose paths are not analysed: ' + ast.unparse(st)[:60])
+            elif any(isinstance(n, ast.Return) for n in ast.walk(st)):
+                raise ExtractError(fn.name + ': return in an unexpected place')
+        return removed
+    end = walk(ifs[0].body, False)
+    X.expect(not exits.get('return'), fn.name + ': handler has a return path that is not the ENOENT one')
+    X.expect(end is not None, fn.name + ': handler never reaches its end')
+    return exits.get('enoent'), end
 
 
 MISC_FUNCS = [('get_default_value', 'getDefault'), ('persistent_get_state', 'getState'),
@@ -259,6 +299,10 @@ def extract(ctx):
             req_fmts.add(scf[0]['fmt'] or '?')
             g.strings(short + 'ReqArgs', scf[0]['args'])
             g.string(short + 'RegisterTest', ';'.join(ast.unparse(n.test) for n in f.body if isinstance(n, ast.If) and _calls(n, 'self.cf.add_port_callback')))
+            en, end = _unregister_paths(f, h)
+            X.expect((en is None) == (short in ('store', 'clear')), fn + ': unexpected ENOENT early-return structure')
+            g.raw('def %sEnoentUnreg : Bool := %s' % (short, _lbool(True if en is None else en)))
+            g.raw('def %sEndUnreg : Bool := %s' % (short, _lbool(end)))
         else:
             r = 2
             sends = _calls(f, 'self._send_misc_request')
@@ -269,6 +313,8 @@ def extract(ctx):
             g.strings(short + 'ReqArgs', [ast.unparse(call.args[0]), ast.unparse(call.args[1])])
             g.string(short + 'RegisterTest', '')
             g.strings(short + 'Match', [])
+            g.raw('def %sEnoentUnreg : Bool := true' % short)
+            g.raw('def %sEndUnreg : Bool := true' % short)
         X.expect(routing is None or routing == r, 'the four misc functions route replies differently')
         routing = r
         g.strings(short + 'HandlerCompares', X.compares(h))
@@ -853,7 +899,8 @@ class Scenario:
         self.expect.append(toks)
 
     # -- steps executed on the real code and mirrored as request lines
-    def upd(self):
+    def upd(self, twin=True):
+        """twin=False: the Python device was told to answer this request with a forced status (not executed); the Lean twin is left alone"""
         toks = self.real.upd_step()
         if toks is None:
             self.emit('upd', ['disabled'])
@@ -861,7 +908,7 @@ class Scenario:
         self.emit('upd', ['ok'] + toks)
         self.tstate()
         for t in toks:
-            if t.startswith('tx:'):
+            if t.startswith('tx:') and twin:
                 _, chan, data = t.split(':')
                 # the device twin must answer like the Python device did
                 want = self.real.link.history[-1:] if self.dev.requests and self.dev.requests[-1][0] == 2 else []
@@ -1167,6 +1214,64 @@ def dup_family(sc):
     ctx.count('dup:family-' + first)
 
 
+def first_byte_two(rng, ct):
+    """a value of firmware type ct whose first wire byte is 2 (read as ENOENT by the default-value handler)"""
+    size = struct.calcsize(FW_FMT[ct])
+    raw = bytes([2]) + bytes(rng.randrange(256) for _ in range(size - 1))
+    if ct in ('float', 'double'):
+        raw = bytes([2]) + bytes(size - 3) + (b'\x80\x3f' if ct == 'float' else b'\xf0\x3f')
+    return struct.unpack(FW_FMT[ct], raw)[0]
+
+
+def misc_call(sc, kind, name, with_cb=True):
+    r = sc.real
+    sc.rid += 1
+    rid = sc.rid
+    if kind == 'getdef':
+        toks, line = r.get_default(name, rid), 'getdef %s %d' % (r.cn(name), rid)
+    elif kind == 'getstate':
+        toks, line = r.get_state(name, rid), 'getstate %s %d' % (r.cn(name), rid)
+    else:
+        toks = (r.store if kind == 'store' else r.clear)(name, rid if with_cb else None)
+        line = '%s %s %s' % (kind, r.cn(name), rid if with_cb else '-')
+    sc.emit(line, ['ok'] + toks)
+
+
+def sequential_family(sc):
+    """SEQUENTIAL misc requests on one parameter: each is answered (with every reply variant the device can give - value,
+    stored / not stored, default whose first byte is 2, ENOENT and other error statuses, store/clear with and without callback)
+    before the next one is issued; a handler left registered after its answer would receive the later replies"""
+    rng, r, ctx, dev = sc.rng, sc.real, sc.ctx, sc.dev
+    pers = [i for i, p in enumerate(dev.param_toc) if p.persistent]
+    if not pers or not r.proto4():
+        return
+    i = rng.choice(pers)
+    name, p = sc.names[i], dev.param_toc[i]
+    cmd = {'getdef': 6, 'getstate': 4, 'store': 3, 'clear': 5}
+    plan = []
+    for kind in ('getstate', 'getdef', 'store', 'clear'):
+        plan += [(kind, None), (kind, 2), (kind, rng.choice([7, 12, 13, 22]))]
+    plan += [('getdef', 'two'), ('store', 'nocb'), ('clear', 'nocb'), ('getstate', None)]
+    rng.shuffle(plan)
+    for kind, var in plan:
+        twin = True
+        if var == 'two':
+            p.default = first_byte_two(rng, p.ctype)
+            sc.emit('devreset %d %s' % (1 if dev.v2 else 0, sc.dev_line()), ['ok', '-'])
+        elif isinstance(var, int):
+            dev.force_status(2, 3, bytes([cmd[kind], i & 0xFF, i >> 8]), var)
+            twin = False
+        misc_call(sc, kind, name, with_cb=(var != 'nocb'))
+        if sc.upd(twin=twin):
+            sc.deliver()
+        drain(sc)
+        ctx.count('seq:%s:%s' % (kind, var))
+    # and the same query again after each kind was answered at least once
+    for kind in ('getstate', 'getdef', 'store', 'clear'):
+        misc_call(sc, kind, name)
+        drain(sc)
+
+
 def retry_family(sc):
     """split retry timers: (a) the answer arrives between timer expiry and timer callback and the next request - same
     (channel, index), another channel, or another index - is already transmitted when the callback runs; (b) the callback runs
@@ -1238,6 +1343,9 @@ def correspond(ctx):
                 retry_family(sc)
             if k % 2 == 0:
                 dup_family(sc)
+            if k % 3 == 0:
+                drain(sc)
+                sequential_family(sc)
             run_ops(sc, 150 if thorough else 80)
             if sc.real.proto4():
                 drain(sc)
@@ -1327,7 +1435,9 @@ def _expected_misc(devcopy, S, kind, i):
     if kind in ('store', 'clear'):
         return ('b', body[0] == 0)
     if kind == 'getdef':
-        if len(body) == 1 and body[0] == 2 and struct.calcsize(FW_FMT[ct]) != 1:
+        if body[0] == 2:
+            # ENOENT - or a default value whose first wire byte is 2, which the wire format cannot tell apart (observation in
+            # docs/C04.md; the library reads both as "no default"): not an attribution question
             return ('d', None)
         return ('d', _bits(ct, _fw_decode(ct, body)))
     if body[0] == 2:
@@ -1388,8 +1498,73 @@ def search(ctx):
     """the property itself (Python twin of Spec/C04 + the statement) evaluated on the real code's observable behaviour"""
     _search_sync(ctx)
     _search_duplicates(ctx)
+    _search_sequential(ctx)
     _search_retry(ctx)
     search_threads(ctx)
+
+
+def _search_sequential(ctx):
+    """SEQUENTIAL misc requests (never overlapping - so neither D5b nor D5c applies): every request is answered, with each
+    reply variant the device can give, before the next is issued.  Spec: the callback of every request is called exactly once,
+    with the reply to its own request; in particular a request that has been answered never hears of a later reply."""
+    from harness.sim import crazyflie_device as S
+    import copy
+    rng = ctx.rng
+    routing, _snap = source_variant()
+    cmd = {'getdef': 6, 'getstate': 4, 'store': 3, 'clear': 5}
+    for t in range(12 if ctx.tier == 'thorough' else 4):
+        ct = CTYPES[(3 * t + 1) % len(CTYPES)]
+        ps = [S.ParamVar('g', 'p0', ct, value=rand_value(rng, ct), persistent=True, default=rand_value(rng, ct),
+                         stored=rand_value(rng, ct) if t % 2 else None),
+              S.ParamVar('g', 'p1', ct, value=rand_value(rng, ct), persistent=True, default=first_byte_two(rng, ct))]
+        dev = S.CrazyflieDevice(protocol_version=5, param_toc=ps)
+        r = Real(dev, {}, routing, needs_resending=bool(t % 2))
+        _pump(r)
+        if not _ready(ctx, r, 'sequential'):
+            return
+        got = {}
+        plan = []
+        for kind in ('getstate', 'getdef', 'store', 'clear'):
+            plan += [(kind, 0, None), (kind, 0, 'enoent'), (kind, 0, None)]
+        plan += [('getdef', 1, None), ('getdef', 1, None), ('store', 0, 'nocb'), ('store', 0, None), ('clear', 0, 'nocb'), ('clear', 0, None),
+                 ('getstate', 0, 'enoent'), ('getstate', 0, None), ('getstate', 0, None)]
+        head = plan[:0]
+        rest = plan[:]
+        rng.shuffle(rest)
+        plan = head + rest
+        expected = {}
+        for rid, (kind, i, var) in enumerate(plan):
+            name = 'g.p%d' % i
+            if var == 'enoent':
+                dev.force_status(2, 3, bytes([cmd[kind], i, 0]), 2)
+                want = ('b', False) if kind in ('store', 'clear') else (kind[3], None)
+            else:
+                want = _expected_misc(copy.deepcopy(dev), S, kind, i)
+            fn = {'getdef': r.param.get_default_value, 'getstate': r.param.persistent_get_state, 'store': r.param.persistent_store,
+                  'clear': r.param.persistent_clear}[kind]
+
+            def cb(nm, val, _rid=rid, _ct=ct):
+                if val is not None and hasattr(val, 'is_stored'):
+                    val = (val.is_stored, _bits(_ct, val.default_value), None if val.stored_value is None else _bits(_ct, val.stored_value))
+                elif val is not None and not isinstance(val, bool):
+                    val = _bits(_ct, val)
+                got.setdefault(_rid, []).append((nm, val))
+            _call(r, fn, name, None if var == 'nocb' else cb)
+            _pump(r)                                       # answered before the next request is issued
+            if var != 'nocb':
+                expected[rid] = [(name, want[1])]
+            ctx.count('search:sequential-%s-%s' % (kind, var))
+        # a default value whose first wire byte is 2 is indistinguishable from ENOENT on the wire: both readings are accepted
+        for rid, (kind, i, var) in enumerate(plan):
+            if kind == 'getdef' and i == 1 and got.get(rid) == [('g.p1', None)]:
+                expected[rid] = got[rid]
+        if got != expected:
+            bad = sorted(k for k in set(got) | set(expected) if got.get(k) != expected.get(k))
+            ctx.witness('stale-handler-after-answer',
+                        'sequential misc requests (each answered before the next is issued): a callback was not called exactly once with the '
+                        'reply to its own request',
+                        {'type': ct, 'requests': [[k, 'g.p%d' % i, v] for (k, i, v) in plan]},
+                        wrong={str(k): {'request': list(plan[k]), 'expected': repr(expected.get(k)), 'got': repr(got.get(k))} for k in bad[:4]})
 
 
 def _search_retry(ctx):
